@@ -47,13 +47,37 @@ func c17R1(h H) {
 			n++
 			mk, isMk := st.Val.(*ssa.Call)
 			shape := isMk && strings.HasSuffix(calleeName(&mk.Call), "limits.MaxBytesReader")
+			var limitArg ssa.Value
+			if shape {
+				limitArg = mk.Call.Args[2]
+			} else {
+				// the same reader built in place: &maxBytesReader{…, n: <limit>}
+				v := st.Val
+				if mi, ok := v.(*ssa.MakeInterface); ok {
+					v = mi.X
+				}
+				if al, ok := v.(*ssa.Alloc); ok && strings.HasSuffix(al.Type().String(), "limits.maxBytesReader") {
+					for _, ref := range *al.Referrers() {
+						fa, ok := ref.(*ssa.FieldAddr)
+						if !ok || fieldName(fa.X.Type(), fa.Field) != "n" {
+							continue
+						}
+						for _, r2 := range *fa.Referrers() {
+							if s2, ok := r2.(*ssa.Store); ok && s2.Addr == ssa.Value(fa) {
+								limitArg = s2.Val
+								shape = true
+							}
+						}
+					}
+				}
+			}
 			limOK := false
 			var entry ssa.Value
 			if shape {
 				// the limit handed to the reader: possibly through a merge of "found"/"not found" results, of which
 				// only the values that can reach this store count
 				limOK = true
-				for _, lv := range valuesAt(fn, mk.Call.Args[2], in) {
+				for _, lv := range valuesAt(fn, limitArg, in) {
 					p, root := fieldPath(lv)
 					if p != "Limit" || (entry != nil && !sameValue(root, entry) && root != entry) {
 						limOK = false
